@@ -177,6 +177,30 @@ func c08(c *ctx) {
 		g.Number()
 		cases = append(cases, &c08case{id: len(cases), g: g, kind: fmt.Sprintf("many-rules-%d", nr), opts: gram.PrintOpts{State: " N int", ActionCode: func(id int) string { return "p.N++" }}})
 	}
+	// a -switch case whose sequence ends in an empty element behind an optional part or a choice: the label that part
+	// leaves behind is the last thing of the case, and the case still needs its "break" (F23; seeded change C08-G
+	// took the shape from the repair's own commit message)
+	{
+		L := gram.Lit
+		q := func(e *gram.Expr) *gram.Expr { return gram.Un(gram.KQuery, e) }
+		shapes := []*gram.Expr{
+			gram.Seq(gram.Alt(gram.Seq(L("a"), q(L("x")), gram.Nil()), gram.Seq(L("b"), gram.Alt(L("y"), L("z")), gram.Nil()), gram.Seq(L("e"), L("f"))), L("q")),
+			gram.Seq(gram.Alt(gram.Seq(L("x"), q(L("t")), gram.Nil()), gram.Seq(L("q"), q(gram.Alt(L("t"), L("r"))), gram.Nil()), gram.Seq(gram.Rng('a', 'f'), L("f")), gram.Seq(L("y"), gram.Un(gram.KStar, L("t")), gram.Nil())), L(";")),
+			gram.Seq(gram.Alt(gram.Seq(L("a"), q(L("x")), gram.Nil(), gram.Nil()), gram.Seq(L("b"), gram.Un(gram.KNot, L("c")), q(L("y")), gram.Nil()), gram.Seq(L("c"), gram.Un(gram.KPlus, L("d")), gram.Nil()), gram.Seq(gram.Rng('m', 'z'), q(gram.Seq(L("1"), L("2"))), gram.Act(), gram.Nil())), gram.Un(gram.KNot, gram.Dot())),
+		}
+		for _, e := range shapes {
+			for _, spell := range []bool{false, true} {
+				g := &gram.Grammar{Rules: []*gram.Rule{{Name: "R0", E: e}}}
+				g.Number()
+				o := gram.PrintOpts{State: " N int", ActionCode: func(int) string { return "p.N++" }}
+				if spell {
+					o.V = rand.New(rand.NewSource(c.env.Seed*31 + int64(len(cases))))
+				}
+				cases = append(cases, &c08case{id: len(cases), g: g, kind: "surface-case-ending-in-an-empty-element", opts: o})
+				c.run.Count("grammars_with_a_switch_case_ending_in_an_empty_element", 1)
+			}
+		}
+	}
 	// ranges whose bounds are ordinary characters but which span the surrogate block U+D800-U+DFFF (e.g. "all of the
 	// BMP above ASCII"), as a -switch case next to a larger alternative (so that the range is not the default case)
 	for _, sr := range [][4]rune{{0xD7FE, 0xE001, 0xE002, 0xF8FF}, {0x80, 0xFFFF, 0x10000, 0x10FFFF}, {0xD7FF, 0xE000, 0xE001, 0xE900}} {
